@@ -430,6 +430,27 @@ def rule_count(repo, tier):
                 res.add(Finding('C18.COUNT', f, '`%s` counts the point itself among its neighbours (neither minus one nor a masked diagonal)' % src(v)[:70], node=a))
             elif minus_one and diag:
                 res.add(Finding('C18.COUNT', f, '`%s` removes the point itself twice (diagonal mask and minus one)' % src(v)[:70], node=a))
+    # the other admissible form of "at least n others within the radius": the (n+1)-th smallest distance of the row (self included) is within the radius.  The
+    # order statistic must be taken at exactly n + 1 - a k clamped to the number of points (min(n + 1, N)) answers "all the others are near", which keeps points
+    # that cannot have n neighbours at all
+    for q in ('nbr_filter', 'knn_filter'):
+        f = repo.func(GEO, q)
+        for c in ast.walk(f.node):
+            if isinstance(c, ast.Call) and (dotted(c.func) or '').split('.')[-1] in ('knn', 'topk', 'kthvalue') and q == 'nbr_filter':
+                kw = {k.arg: k.value for k in c.keywords}
+                kexpr = kw.get('k', c.args[2] if (dotted(c.func) or '').split('.')[-1] == 'knn' and len(c.args) > 2 else (c.args[1] if len(c.args) > 1 else None))
+                if kexpr is None:
+                    continue
+                n += 1
+                clamp = [x for x in ast.walk(kexpr) if isinstance(x, ast.Call) and (dotted(x.func) or '').split('.')[-1] in ('min', 'clamp', 'minimum')]
+                exact = isinstance(kexpr, ast.BinOp) and isinstance(kexpr.op, ast.Add) and {dump(kexpr.left), dump(kexpr.right)} == {dump(ast.Name('nbr', ast.Load())), dump(ast.Constant(1))}
+                res.inst({'function': f.fq, 'order statistic': src(c)[:70], 'k is exactly nbr + 1': exact}, (f.fq, 'kth', src(kexpr)))
+                if clamp:
+                    res.add(Finding('C18.COUNT', f, 'the neighbour test takes the `%s`-th smallest distance: with k clamped to the number of points a point whose ALL other '
+                                    'points are near is kept although it has fewer than nbr neighbours (nbr >= N: nothing can be kept)' % src(kexpr)[:40], node=c,
+                                    construct='order statistic with a clamped k'))
+                elif not exact:
+                    raise AnalysisError('C18.COUNT: the order statistic `%s` of nbr_filter is not at nbr + 1' % src(kexpr)[:40])
     if n < 2:
         raise AnalysisError('C18.COUNT: found %d radius counts in nbr_filter / knn_filter, expected 2' % n)
     return res
@@ -614,10 +635,15 @@ def rule_ordflow(repo, tier):
     pv = inline_straight(pf.node, upto=prets[0]).value(prets[0].value) if len(prets) == 1 else None
     if isinstance(pv, ast.Call) and dotted(pv.func) == 'torch.stack' and pv.args and isinstance(pv.args[0], (ast.List, ast.Tuple)) and len(pv.args[0].elts) == 3:
         kname, pxname = pf.pos_params[2], pf.pos_params[0]
+        def _root(e):
+            # dtype / device / layout conversions keep the entries where they are
+            while isinstance(e, ast.Call) and isinstance(e.func, ast.Attribute) and e.func.attr in ('to', 'float', 'double', 'contiguous', 'clone', 'type_as', 'detach'):
+                e = e.func.value
+            return e
         def entries(e):
             out = set()
             for x in ast.walk(e):
-                if isinstance(x, ast.Subscript) and isinstance(x.value, ast.Name) and x.value.id == kname and isinstance(x.slice, ast.Tuple):
+                if isinstance(x, ast.Subscript) and isinstance(_root(x.value), ast.Name) and _root(x.value).id == kname and isinstance(x.slice, ast.Tuple):
                     idx = [y.value for y in x.slice.elts if isinstance(y, ast.Constant) and isinstance(y.value, int)]
                     if len(idx) == 2:
                         out.add(tuple(idx))
@@ -625,7 +651,7 @@ def rule_ordflow(repo, tier):
         def pix(e):
             out = set()
             for x in ast.walk(e):
-                if isinstance(x, ast.Subscript) and isinstance(x.value, ast.Name) and x.value.id == pxname and isinstance(x.slice, ast.Tuple):
+                if isinstance(x, ast.Subscript) and isinstance(_root(x.value), ast.Name) and _root(x.value).id == pxname and isinstance(x.slice, ast.Tuple):
                     idx = [y.value for y in x.slice.elts if isinstance(y, ast.Constant) and isinstance(y.value, int)]
                     out |= set(idx)
             return out
@@ -669,9 +695,47 @@ def rule_ordflow(repo, tier):
     return res
 
 
+@guarded
+def rule_distinct(repo, tier):
+    """random_filter returns DISTINCT input points: the index tensor that selects them is (a prefix of) a permutation - torch.randperm, or torch.multinomial
+    without replacement, or the order of a sort / topk of random keys.  randint / a floor of rand / multinomial(replacement=True) draw WITH replacement: for
+    num close to N most draws repeat a point."""
+    res = RuleResult('C18.DISTINCT', 'random_filter: the indices that select the returned points come from a permutation (randperm / multinomial without replacement / '
+                     'argsort of random keys), never from independent draws', floor=1)
+    f = repo.func(GEO, 'random_filter')
+    rets = returns_of(f.node)
+    n = 0
+    for r in rets:
+        v = inline_straight(f.node, upto=r).value(r.value)
+        sources = [c for c in ast.walk(v) if isinstance(c, ast.Call) and (dotted(c.func) or '').split('.')[-1] in
+                   ('randperm', 'multinomial', 'randint', 'rand', 'randn', 'randint_like', 'rand_like', 'argsort', 'sort', 'topk', 'choice', 'sample', 'shuffle')]
+        if not sources:
+            raise AnalysisError('C18.DISTINCT: the random source of random_filter was not recognised in `%s`' % src(v)[:60])
+        for c in sources:
+            nm = (dotted(c.func) or '').split('.')[-1]
+            n += 1
+            if nm == 'multinomial':
+                kw = {k.arg: k.value for k in c.keywords}
+                rep = kw.get('replacement', c.args[2] if len(c.args) > 2 else ast.Constant(False))
+                ok = isinstance(rep, ast.Constant) and rep.value is False
+            elif nm in ('randint', 'randint_like'):
+                ok = False
+            elif nm in ('rand', 'randn', 'rand_like'):
+                # random keys are fine only under an argsort / sort / topk
+                ok = any(isinstance(o, ast.Call) and (dotted(o.func) or o.func.attr if isinstance(o.func, ast.Attribute) else dotted(o.func) or '').split('.')[-1] in ('argsort', 'sort', 'topk')
+                         and any(x is c for x in ast.walk(o)) for o in ast.walk(v))
+            else:
+                ok = True
+            res.inst({'function': f.fq, 'index source': src(c)[:60], 'without replacement': ok}, (f.fq, src(c)[:60]))
+            if not ok:
+                res.add(Finding('C18.DISTINCT', f, 'the indices of random_filter come from `%s`: independent draws repeat (with num = N about a third of the points are '
+                                'returned twice or more), the result is not a set of distinct input points' % src(c)[:60], node=r, construct='indices drawn with replacement'))
+    return res
+
+
 def rules(repo, tier):
     from ..optional import rule_optional
     from ..mode import mode_rules
     from ..callsig import rule_callsig
     from ..docsig import rule_docsig
-    return [rule_idx(repo, tier), rule_sign(repo, tier), rule_fwd(repo, tier), rule_memo18(repo, tier), rule_self(repo, tier), rule_rankidx(repo, tier), rule_count(repo, tier), rule_errnorm(repo, tier), rule_kentries(repo, tier), rule_unit18(repo, tier), rule_ordflow(repo, tier), rule_optional(repo, 'C18.OPT', ['pypose.function.geometry'])] + mode_rules(repo, 'C18', ['pypose.function.geometry']) + [rule_callsig(repo, 'C18.SIG', ['pypose.function.geometry']), rule_docsig(repo, 'C18.DOC', ['pypose.function.geometry'])]
+    return [rule_distinct(repo, tier), rule_idx(repo, tier), rule_sign(repo, tier), rule_fwd(repo, tier), rule_memo18(repo, tier), rule_self(repo, tier), rule_rankidx(repo, tier), rule_count(repo, tier), rule_errnorm(repo, tier), rule_kentries(repo, tier), rule_unit18(repo, tier), rule_ordflow(repo, tier), rule_optional(repo, 'C18.OPT', ['pypose.function.geometry'])] + mode_rules(repo, 'C18', ['pypose.function.geometry']) + [rule_callsig(repo, 'C18.SIG', ['pypose.function.geometry']), rule_docsig(repo, 'C18.DOC', ['pypose.function.geometry'])]
